@@ -19,7 +19,7 @@ RULE = ("(names) the whole settings matrix — schema env in {absent, True, 'NAM
 TRUSTED_BASE = ["harness/props/c14.py (builds schemas top-down, patches os.environ per case)", "str.upper on identifier keys (ASCII)"]
 ASSUMPTIONS = ["schemas are built top-down (each schema receives its key before its own fields are added), as the property states"]
 
-SETTINGS = [None, True, "PFX", False]
+SETTINGS = [None, True, "PFX", "myApp", False]
 KEYS = ["db", "conn", "pool"]
 
 
